@@ -267,6 +267,7 @@ type sim struct {
 	sets  map[uint64]rwSets // by original address
 	model []*mBlock         // in current block order
 	sweeps int // lookup sweeps so far (their direction alternates)
+	lookupsOK bool // false while a LateLookups run waits for its first accepted block move
 }
 
 // snapshot renders the full observable state of the code.
@@ -358,6 +359,9 @@ func (s *sim) invariants(ev int) bool {
 	// and the last address asked after an operation are not always the same
 	// ones (an index or memo left behind by the previous sweep must not be
 	// trusted by the code under test).
+	if !s.lookupsOK {
+		return true
+	}
 	s.sweeps++
 	for k := range blocks {
 		bi := k
@@ -421,7 +425,7 @@ func (e *Engine) Execute(tr core.Trace, ctx *core.Ctx) {
 		ctx.Probe("newcode_rejected")
 		return
 	}
-	s := &sim{ctx: ctx, t: t, code: code, orig: instrs, sets: map[uint64]rwSets{}}
+	s := &sim{ctx: ctx, t: t, code: code, orig: instrs, sets: map[uint64]rwSets{}, lookupsOK: !t.LateLookups}
 	for _, in := range instrs {
 		s.sets[uint64(in.Addr)] = setsOf(in.Effects, in.Type, uint64(in.Addr)+uint64(len(in.Bytes)))
 	}
@@ -538,6 +542,10 @@ func (e *Engine) Execute(tr core.Trace, ctx *core.Ctx) {
 					}
 				}
 			} else {
+				if !s.lookupsOK {
+					s.lookupsOK = true
+					ctx.Probe("first_lookup_after_a_block_move")
+				}
 				x := s.model[op.From]
 				if op.From < op.To {
 					copy(s.model[op.From:op.To], s.model[op.From+1:op.To+1])
@@ -550,6 +558,9 @@ func (e *Engine) Execute(tr core.Trace, ctx *core.Ctx) {
 				}
 			}
 		case "lookup":
+			if !s.lookupsOK {
+				continue
+			}
 			var wantBlock *mBlock
 			wantIns := false
 			for _, mb := range s.model {
@@ -874,6 +885,9 @@ func (s *sim) runBlock(code *deps.Code, addr uint64, n int, seed uint64, end ...
 }
 
 func (s *sim) compareBehaviour(ev int, moved map[uint64]bool) bool {
+	if !s.lookupsOK {
+		return true
+	}
 	var fresh *deps.Code
 	var err error
 	if _, _, p := core.Guard(func() {
